@@ -325,7 +325,7 @@ def _pmap_call(args):
     return r, err, delta
 
 
-def pmap(func, items, procs=None, chunksize=1):
+def pmap(func, items, procs=None, chunksize=1, fresh_process=False):
     """fork-based parallel map; merges solver statistics of the workers into this process.
     Must be called before this process has used z3 (the solver thread is created lazily)."""
     import multiprocessing as mp
@@ -350,8 +350,10 @@ def pmap(func, items, procs=None, chunksize=1):
         res_p = [_pmap_call(w) for w in work]
     else:
         ctx = mp.get_context("fork")
-        with ctx.Pool(procs) as pool:
-            res_p = pool.map(_pmap_call, work, chunksize=chunksize)
+        # fresh_process: every task runs in a process forked from this (pristine) one, so that process-wide state a
+        # task leaves behind (class attributes, module caches) cannot reach the next task
+        with (ctx.Pool(procs, maxtasksperchild=1) if fresh_process else ctx.Pool(procs)) as pool:
+            res_p = pool.map(_pmap_call, work, chunksize=1 if fresh_process else chunksize)
     res = [None] * len(items)
     for i, r in zip(order, res_p):
         res[i] = r
